@@ -11,11 +11,14 @@ func pbLayers(tier string) []Layer {
 	m := Menu{WriteChunks: true, ReadFrom: true, NTL: true, ParseNil: true, StopEarly: true, ShrinkDev: true, Reset: true}
 	if tier == "thorough" {
 		return []Layer{
+			c16ResetLayers(tier)[0],
 			{Name: "parsers-b1", Kinds: Kinds, BufSizes: []int{1, 2, 3, 5, 8}, Level: 0, Inputs: Binary(6), Menu: m, Bound: 1, CfgFilter: fewSearchParams},
 			{Name: "parsers-b2", Kinds: []string{"HP", "BUP", "DHP"}, BufSizes: []int{2, 3, 5}, Level: 0, Inputs: Binary(5), Menu: m, Bound: 2, CfgFilter: fewSearchParams},
 		}
 	}
 	return []Layer{
+		// Reset with caller slices of every capacity relation, also several in a row (what Reset keeps of the old array)
+		c16ResetLayers(tier)[0],
 		{Name: "parsers-b1", Kinds: Kinds, BufSizes: []int{1, 2, 3, 5}, Level: 0, Inputs: Binary(4), Menu: m, Bound: 1, CfgFilter: fewSearchParams},
 		{Name: "parsers-b2", Kinds: []string{"HP", "BUP"}, BufSizes: []int{3}, Level: 0, Inputs: Binary(4), Menu: m, Bound: 2, CfgFilter: fewSearchParams},
 	}
